@@ -117,6 +117,17 @@ where
     async fn handle(&self, env: &mut Env<S>) -> super::Result {
         print_report(env, &self.to_report()).await;
         env.exit_status = ExitStatus::ERROR;
+
+        // An expansion error in the operand of a redirection is an expansion
+        // error, which is not confined to the command like a redirection error.
+        if let crate::redir::ErrorCause::Expansion(_) = self.cause {
+            return if env.errexit_is_applicable() {
+                Break(Divert::Exit(Some(ExitStatus::ERROR)))
+            } else {
+                Break(Divert::Interrupt(Some(ExitStatus::ERROR)))
+            };
+        }
+
         Continue(())
     }
 }
